@@ -11,10 +11,12 @@
 (*   AppendPage (between files)  ->  Write                                  *)
 (***************************************************************************)
 EXTENDS Naturals, Integers, Sequences, FiniteSets, TLC, Json
-CONSTANTS MaxFiles, Kinds, PageSet, ColorSet, HFSet, MissingSet, LandSet, TailSet,
+CONSTANTS MaxFiles, Kinds, PageSet, ColorSet, HFSet, MissingSet, LandSet, TailSet, EnvSet,
           FigureColorOwnLine      \* deviation flag: TRUE = colour table of figure documents starts its own line
-VARIABLES files, d, phase, i, out, wrote, err
-vars == <<files, d, phase, i, out, wrote, err>>
+VARIABLES files, d, phase, i, out, wrote, err, env
+vars == <<files, d, phase, i, out, wrote, err, env>>
+\* env = [alias, rerun]: the output path is the first input; an earlier call assembled the same paths when the first
+\* input still had other content of the same length and time stamp (the inputs are read anew by every call)
 
 \* line classes and their brace balance
 Delta(c) == CASE c = "sig" -> 1 [] c = "fontopen" -> 1 [] c = "fontend" -> -1 [] c = "coloropen" -> 1
@@ -39,20 +41,22 @@ Lines(f) ==
   \o << <<"blank">>, <<"close">> >>
 
 File0(n) == [id |-> n, kind |-> "table", color |-> FALSE, hf |-> FALSE, pages |-> 1, missing |-> FALSE, land |-> FALSE, tail |-> "none"]
-Init == files = <<>> /\ d = 0 /\ phase = "pick" /\ i = 1 /\ out = <<>> /\ wrote = FALSE /\ err = "none"
+Init == files = <<>> /\ d = 0 /\ phase = "pick" /\ i = 1 /\ out = <<>> /\ wrote = FALSE /\ err = "none" /\ env = [alias |-> FALSE, rerun |-> FALSE]
 \* build the argument list one file (5 picks) at a time
 Pick == /\ phase = "pick"
         /\ \/ (/\ Len(files) < MaxFiles /\ d = 0
                /\ \E k \in Kinds, c \in ColorSet, hfv \in HFSet, p \in PageSet, ms \in MissingSet, ld \in LandSet, tl \in TailSet :
                     files' = Append(files, [File0(Len(files) + 1) EXCEPT !.kind = k, !.color = c, !.hf = hfv, !.pages = p, !.missing = ms, !.land = ld, !.tail = tl])
-               /\ UNCHANGED <<d, phase>>)
-           \/ (d = 0 /\ phase' = "check" /\ UNCHANGED <<files, d>>)
+               /\ UNCHANGED <<d, phase>>
+               /\ UNCHANGED env)
+           \/ (/\ d = 0 /\ phase' = "check" /\ UNCHANGED <<files, d>>
+               /\ \E a \in EnvSet, b \in EnvSet : env' = [alias |-> a /\ Len(files) >= 1, rerun |-> b /\ Len(files) >= 1])
         /\ UNCHANGED <<i, out, wrote, err>>
 CheckExists == /\ phase = "check"
                /\ IF Len(files) = 0 THEN phase' = "done" /\ err' = err
                   ELSE IF \E j \in 1..Len(files) : files[j].missing THEN phase' = "done" /\ err' = "FileNotFoundError"
                   ELSE phase' = "parts" /\ err' = err
-               /\ UNCHANGED <<files, d, i, out, wrote>>
+               /\ UNCHANGED <<files, d, i, out, wrote, env>>
 \* find_start_index: last line containing "fcharset", plus two
 LastFont(ls) == LET S == {j \in 1..Len(ls) : IsFontLine(Cls(ls[j]))} IN IF S = {} THEN 0 ELSE CHOOSE j \in S : \A x \in S : x <= j
 StartIdx(ls, n) == IF n = 1 THEN 1 ELSE (IF LastFont(ls) = 0 THEN 1 ELSE LastFont(ls) + 2)
@@ -61,9 +65,9 @@ AppendPart == /\ phase = "parts" /\ i <= Len(files)
               /\ LET ls == Lines(files[i]) IN
                    out' = out \o SubSeq(ls, StartIdx(ls, i), EndIdx(ls, i))
                               \o (IF i < Len(files) THEN << <<"newpage", i>> >> ELSE <<>>)
-              /\ i' = i + 1 /\ UNCHANGED <<files, d, phase, wrote, err>>
+              /\ i' = i + 1 /\ UNCHANGED <<files, d, phase, wrote, err, env>>
 Write == /\ phase = "parts" /\ i > Len(files) /\ wrote' = TRUE /\ phase' = "done"
-         /\ UNCHANGED <<files, d, i, out, err>>
+         /\ UNCHANGED <<files, d, i, out, err, env>>
 Next == Pick \/ CheckExists \/ AppendPart \/ Write
 Spec == Init /\ [][Next]_vars
 
@@ -86,6 +90,6 @@ NewPageAndGeometry == (phase = "done" /\ wrote) =>
 SingleUnchanged == (phase = "done" /\ wrote /\ Len(files) = 1) => out = Lines(files[1])
 EmptyWritesNothing == (phase = "done" /\ Len(files) = 0) => ~wrote
 MissingRaises == (phase = "done" /\ \E j \in 1..Len(files) : files[j].missing) => (err = "FileNotFoundError" /\ ~wrote)
-Emit == phase = "done" => PrintT(ToJson([files |-> files, wrote |-> wrote, err |-> err,
+Emit == phase = "done" => PrintT(ToJson([files |-> files, env |-> env, wrote |-> wrote, err |-> err,
                                           out |-> [j \in 1..Len(out) |-> Cls(out[j])]]))
 =============================================================================
